@@ -1,8 +1,7 @@
 -------------------------- MODULE MC_LabelScope --------------------------
 (* Model-checking / case-emitting wrapper of LabelScope (TLC only). *)
-EXTENDS LabelScope, Json, TLCExt
+EXTENDS LabelScope, Json, TLCExt, SequencesExt
 
-SetToSeq(S) == CHOOSE f \in [1..Cardinality(S) -> S] : \A i, j \in 1..Cardinality(S) : i < j => f[i] < f[j]
 Str(b) == [i \in 1..Len(b) |-> b[i].k \o b[i].n]
 
 \* one line per finished body: the input and the rule's verdict (and the model's)
